@@ -39,8 +39,12 @@ Proof.
   intros c w d z s [A B] _. unfold finish_sync. set (s1 := emit (OSync c d z) s).
   change (get_worker s1 w) with (get_worker s w). destruct (k_cleanup (get_worker s w)) eqn:Ek.
   - left. exists "Cleanup key is already in use"%string. unfold set_call, panic, emit. cbn. left. reflexivity.
-  - right. unfold armed. rewrite (ProofsSyncOut.get_worker_frame _ (set_call c PDone _) w) by reflexivity.
-    rewrite get_worker_upd_worker. change (worker_exists s1 w) with (worker_exists s w). rewrite B, (proj2 (wref_eqb_eq w w) eq_refl). cbn. reflexivity.
+  - right. unfold armed. set (f := fun k : worker => k <| k_cleanup := Some (s_now s1 + cf_worker_timeout (s_cfg s1)) |>).
+    change (get_worker (set_call c PDone (upd_worker w f s1)) w) with (get_worker (upd_worker w f s1) w).
+    change (s_now (set_call c PDone (upd_worker w f s1))) with (s_now (upd_worker w f s1)).
+    change (s_cfg (set_call c PDone (upd_worker w f s1))) with (s_cfg (upd_worker w f s1)).
+    rewrite get_worker_upd_worker. change (worker_exists s1 w) with (worker_exists s w). rewrite B, (proj2 (wref_eqb_eq w w) eq_refl). cbn [andb].
+    rewrite (upd_worker_eq w f s1). reflexivity.
 Qed.
 
 Lemma SA_sync_return_exec : forall c w s, SPre w s -> SAok w (sync_return_exec c w s).
@@ -70,4 +74,101 @@ Proof.
   intros c w b pr s H. unfold get_current_or_next.
   hoare ltac:(first [sa_base | lazymatch goal with |- SAok _ (get_next_task _ _ _ _ _) => apply SA_get_next_task; spre_go end]).
   all: apply SA_stay; spre_go.
+Qed.
+
+Lemma NoSY_frame : forall s s', s_out s' = s_out s -> NoSY s -> NoSY s'.
+Proof. unfold NoSY. intros s s' ->. auto. Qed.
+Lemma NoSY_emit : forall s o, is_osync o = false -> NoSY s -> NoSY (emit o s).
+Proof. unfold NoSY, emit. intros s o Ho H x. cbn. intros [<-|Hx]; auto. Qed.
+Ltac t_nosy :=
+  intros;
+  first [ (eapply NoSY_frame; [ | eassumption]; frame_eq)
+        | (apply NoSY_emit; [reflexivity | assumption])
+        | (unfold panic; apply NoSY_emit; [reflexivity | assumption]) ].
+Ltac nosy_go := inv_go fail t_nosy.
+Lemma SA_stay' : forall w s, NoSY s -> SAok w s.
+Proof. intros w s A [x [Hx Ho]]. rewrite (A x Hx) in Ho. discriminate. Qed.
+
+Lemma SA_sync_start : forall c a s, NoSY s -> SAok (y_worker a) (sync_start c a s).
+Proof.
+  intros c a s H. unfold sync_start. cbv zeta. set (w := y_worker a).
+  match goal with |- SAok _ (match ?R with _ => _ end) => destruct R as [s1|code1] eqn:ER end; [|apply SA_stay'; unfold ret; nosy_go].
+  assert (H1 : NoSY s1 /\ scq_exists s1 (w_sk w) = true).
+  { destruct (scq_exists s (w_sk w)) eqn:Ee.
+    - injection ER as <-. split; [nosy_go|rewrite scq_exists_upd_scq; exact Ee].
+    - sum_cases ER; injection ER as <-; (split; [unfold add_scq, add_pq; nosy_go|rewrite scq_exists_add_scq, skey_eqb_refl; apply orb_true_r]). }
+  clear ER H. destruct H1 as [H He]. revert H He. generalize s1. clear s. intros s H He.
+  match goal with |- SAok _ (match ?R with _ => _ end) => destruct R as [s2|code2] eqn:ER end; [|apply SA_stay'; unfold ret; nosy_go].
+  assert (H2 : SPre w s2).
+  { destruct (worker_exists s w) eqn:Ew.
+    - destruct (k_cleanup (get_worker s w)); [|discriminate ER]. injection ER as <-. split; [nosy_go|rewrite worker_exists_upd_worker; exact Ew].
+    - injection ER as <-. split; [nosy_go|].
+      match goal with |- worker_exists (upd_inv ?i ?f ?X) w = true => rewrite (worker_exists_frame X (upd_inv i f X) w) by (rewrite upd_inv_eq; reflexivity) end.
+      apply worker_exists_newworker. exact He. }
+  clear ER H He. revert H2. generalize s2. clear s. intros s H.
+  destruct (y_state a) as [|d|d r|]; try (destruct (running_correct s w d)); try (destruct (k_task (get_worker s w)) as [t|] eqn:Ek);
+    try (apply SA_get_current_or_next; exact H); try (apply SA_finish; exact H); try (apply SA_stay; exact H).
+  all: try (apply SA_stay; unfold sync_return_err, finish_sync; spre_go; fail).
+  apply SA_get_next_task. spre_go.
+Qed.
+
+Definition sync_worker (e : event) (p0 : pc) : option wref :=
+  match e with
+  | EStartSync _ a _ => Some (y_worker a)
+  | EEnter _ _ | ETimer _ _ => match p0 with PSyncDrained w _ | PSyncQueued w => Some w | _ => None end
+  | _ => None
+  end.
+
+Lemma SAok_frame : forall w s s', s_out s' = s_out s -> s_scqs s' = s_scqs s -> s_now s' = s_now s -> s_cfg s' = s_cfg s -> SAok w s -> SAok w s'.
+Proof.
+  unfold SAok, Pan, armed. intros w s s' E1 E2 E3 E4 H. rewrite E1, E3, E4, (get_worker_frame' _ _ _ E2). exact H.
+Qed.
+Lemma SAok_ret : forall w s c code, SAok w s -> SAok w (ret c code s).
+Proof.
+  unfold SAok, Pan, armed, ret, set_call, emit. intros w s c code H [x [Hx Ho]]. cbn in *. destruct Hx as [<-|Hx]; [discriminate|].
+  destruct (H (ex_intro _ x (conj Hx Ho))) as [[what Hw]|Ha]; [left; exists what; right; exact Hw|right; exact Ha].
+Qed.
+
+Lemma enter_nosy : forall t s, NoSY s -> NoSY (enter t s).
+Proof. intros t s H. nosy_go. Qed.
+
+(* every answer of a Synchronize call in an event leaves the worker of that call armed *)
+Lemma sync_answer_armed : forall s e h, SW s -> calls_nodup s ->
+  let s' := fst (step s (e, h)) in
+  (exists x, In x (snd (step s (e, h))) /\ is_osync x = true) ->
+  exists w, sync_worker e (get_call s (ev_call e)) = Some w /\ (Pan (auto_returns (step_core e (s <| s_hints := h |> <| s_out := [] |>))) \/ armed w s').
+Proof.
+  intros s e h HSW Hnd s' Hx. unfold step in *. cbn [fst snd] in *. set (sa := s <| s_hints := h |> <| s_out := [] |>) in *.
+  assert (Ha : NoSY sa) by (intros x []).
+  assert (HSWa : SW sa) by (eapply SW_eq; [..|exact HSW]; reflexivity).
+  assert (Hx' : exists x, In x (s_out (auto_returns (step_core e sa))) /\ is_osync x = true) by (destruct Hx as [x [A B]]; exists x; split; [apply in_rev; exact A|exact B]).
+  assert (Hfin : forall w, SAok w (step_core e sa) -> Pan (auto_returns (step_core e sa)) \/ armed w s').
+  { intros w H1. assert (H2 : SAok w (auto_returns (step_core e sa))) by (apply (fr_auto_returns (SAok w)); [intros; apply SAok_ret; assumption|exact H1]).
+    destruct (H2 Hx') as [Hp|Ha2]; [left; exact Hp|right]. unfold armed in *. exact Ha2. }
+  assert (Hnone : NoSY (step_core e sa) -> False).
+  { intro Hn. assert (H2 : NoSY (auto_returns (step_core e sa))) by (apply (fr_auto_returns NoSY); try (intros; t_nosy); try (intros; unfold ret; nosy_go); exact Hn).
+    destruct Hx' as [x [A B]]. rewrite (H2 x A) in B. discriminate. }
+  assert (Hwp : forall t p w, get_call s (ev_call e) = p -> sync_of p = Some w -> SPre w (enter t sa)).
+  { intros t p w Ep Hs. split; [apply enter_nosy; exact Ha|]. pose proof (SW_enter t sa HSWa) as [_ HWP]. destruct HWP as [W1 _].
+    unfold get_call in Ep. destruct (aget Nat.eqb (ev_call e) (s_calls s)) as [p'|] eqn:Eg; [|subst p; discriminate Hs]. subst p'.
+    apply (W1 (ev_call e) p w); [rewrite calls_enter; exact Eg|exact Hs]. }
+  destruct e; cbn [ev_call sync_worker] in *; unfold step_core in *.
+  all: try (exfalso; apply Hnone; unfold exec_start, new_operation, wait_execution_begin, stream_iter, kill_lookup, ret, wake_up; cbv zeta; nosy_go; fail).
+  - exists (y_worker a). split; [reflexivity|]. apply Hfin. apply SA_sync_start. apply enter_nosy. exact Ha.
+  - (* EEnter *)
+    cbv zeta in *. change (get_call sa c) with (get_call s c) in *. change (at_gate sa (get_call s c)) with (at_gate s (get_call s c)) in *.
+    destruct (negb (at_gate s (get_call s c))); [exfalso; apply Hnone; exact Ha|].
+    destruct (get_call s c) eqn:Ep; try (exfalso; apply Hnone;
+      unfold stream_iter, stream_return, kill_lookup, wait_execution_begin, stream_iter, ret, sync_return_err, finish_sync, maybe_dequeue, maybe_start_cleanup; nosy_go; fail).
+    + exists w. split; [reflexivity|]. apply Hfin. apply SA_sync_loop. exact (Hwp t _ w eq_refl eq_refl).
+    + exists w. split; [reflexivity|]. apply Hfin. pose proof (Hwp t _ w eq_refl eq_refl) as Hpre.
+      destruct (k_task (get_worker (enter t sa) w)); [apply SA_sync_return_exec|apply SA_sync_loop]; exact Hpre.
+  - (* ETimer *)
+    cbv zeta in *. change (get_call sa c) with (get_call s c) in *. change (at_gate sa (get_call s c)) with (at_gate s (get_call s c)) in *.
+    destruct (at_gate s (get_call s c)); [exfalso; apply Hnone; exact Ha|].
+    destruct (get_call s c) eqn:Ep; try (exfalso; apply Hnone; unfold stream_iter; nosy_go; fail).
+    + exists w. split; [reflexivity|]. apply Hfin. apply SA_sync_return_idle. exact (Hwp t _ w eq_refl eq_refl).
+    + exists w. split; [reflexivity|]. apply Hfin. pose proof (Hwp t _ w eq_refl eq_refl) as Hpre.
+      assert (Hpre2 : SPre w (maybe_dequeue w (enter t sa))) by (unfold maybe_dequeue; spre_go).
+      destruct (k_task (get_worker (maybe_dequeue w (enter t sa)) w)); [apply SA_sync_return_exec|apply SA_sync_return_idle]; exact Hpre2.
 Qed.
